@@ -670,7 +670,7 @@ func (e *Engine) findTeddyAt(haystack []byte, at int) *Match {
 //   - Skips non-digit regions with SIMD (15-20x faster for sparse data)
 //   - Total: O(n) for scan + O(k*m) for k digit candidates
 func (e *Engine) findDigitPrefilter(haystack []byte) *Match {
-	if e.digitPrefilter == nil {
+	if e.digitPrefilter == nil || e.longest {
 		return e.findNFA(haystack)
 	}
 
@@ -717,7 +717,7 @@ func (e *Engine) findDigitPrefilter(haystack []byte) *Match {
 
 // findDigitPrefilterAt searches using digit prefilter starting at position 'at'.
 func (e *Engine) findDigitPrefilterAt(haystack []byte, at int) *Match {
-	if e.digitPrefilter == nil || at >= len(haystack) {
+	if e.digitPrefilter == nil || e.longest || at >= len(haystack) {
 		return e.findNFAAt(haystack, at)
 	}
 
